@@ -11,8 +11,10 @@
 package c28
 
 import (
+	"encoding/json"
 	"fmt"
 	"hash/fnv"
+	"os"
 	"runtime"
 	"sort"
 	"strings"
@@ -46,6 +48,41 @@ type ctxRun struct {
 	r      *report.Run
 	mu     sync.Mutex
 	perSig map[string]int
+	only   string // replay: the one case to run ("" = all)
+	reps   int    // replay: repetitions of a concurrent case
+}
+
+// skip reports whether a case is excluded by --replay.
+func (c *ctxRun) skip(tag string) bool { return c.only != "" && c.only != tag }
+
+// loadReplay turns a replay file into a case selector.
+func (c *ctxRun) loadReplay(path string) error {
+	b, err := os.ReadFile(path)
+	if err != nil {
+		return err
+	}
+	var f struct {
+		Seed   int64 `json:"seed"`
+		Detail struct {
+			Phase, Service, Case, Script, Variant, Class string
+		} `json:"detail"`
+	}
+	if err := json.Unmarshal(b, &f); err != nil {
+		return err
+	}
+	c.r.Seed = f.Seed
+	switch d := f.Detail; d.Phase {
+	case "concurrent", "sequential":
+		c.only = d.Case
+	case "script":
+		c.only = "script:" + d.Service + ":" + d.Script + ":" + d.Variant
+	case "capacity":
+		c.only = d.Class
+	default:
+		return fmt.Errorf("replay file names no known phase")
+	}
+	c.reps = 50
+	return nil
 }
 
 // violation reports at most 3 cases per signature (the rest is counted).
@@ -61,7 +98,15 @@ func (c *ctxRun) violation(sig string, detail any) {
 }
 
 func Run(r *report.Run) int {
-	c := &ctxRun{r: r, perSig: map[string]int{}}
+	c := &ctxRun{r: r, perSig: map[string]int{}, reps: 1}
+	floor := 150
+	if r.Replay != "" { // re-execute the one recorded case (a concurrent case: 50 times), any tier
+		if err := c.loadReplay(r.Replay); err != nil {
+			r.Broken("cannot read replay file: %v", err)
+			return r.Finish(rule, assumptions, 1)
+		}
+		r.Tier, floor = "thorough", 0
+	}
 	srv, err := resp.Start()
 	if err != nil {
 		r.Broken("cannot start the RESP stub: %v", err)
@@ -113,7 +158,7 @@ func Run(r *report.Run) int {
 	if n := r.Counter("op_errors"); n > 0 {
 		r.Broken("%d lock-service calls returned an error (stub or connection trouble)", n)
 	}
-	return r.Finish(rule, assumptions, 150)
+	return r.Finish(rule, assumptions, floor)
 }
 
 func hashStrings(parts ...string) string {
@@ -168,8 +213,12 @@ func (c *ctxRun) concurrent(svc *service, mode string, n int) {
 		defer closeFn()
 	}
 	model := porcupineModel(strict)
-	for h := 0; h < n; h++ {
+	for i := 0; i < n*c.reps; i++ {
+		h, rep := i/c.reps, i%c.reps
 		tag := fmt.Sprintf("conc:%s:%s:%d", svc.name, mode, h)
+		if c.skip(tag) {
+			continue
+		}
 		rnd := env.Rand(r.Seed, "c28:"+tag)
 		nOwners, nKeys := 2+rnd.Intn(3), 1+rnd.Intn(3)
 		budget := 40 / nOwners
@@ -187,7 +236,7 @@ func (c *ctxRun) concurrent(svc *service, mode string, n int) {
 		if svc.srv == nil {
 			ls, closeFn = svc.open(nOwners)
 		}
-		owners := newOwners(ls[:nOwners], keyNames(fmt.Sprintf("s%d-%s", r.Seed, strings.ReplaceAll(tag, ":", "-")), nKeys), h%2 == 0)
+		owners := newOwners(ls[:nOwners], keyNames(fmt.Sprintf("s%d-%s-r%d", r.Seed, strings.ReplaceAll(tag, ":", "-"), rep), nKeys), h%2 == 0)
 		var seq atomic.Int64
 		var ready atomic.Int32
 		recs := make([][]rec, nOwners)
@@ -340,6 +389,9 @@ func (c *ctxRun) sequential(svc *service, mode string, n, workers int) {
 func (c *ctxRun) sequentialOne(svc *service, mode string, p int, ls []sop.L2Cache) {
 	r := c.r
 	tag := fmt.Sprintf("seq:%s:%s:%d", svc.name, mode, p)
+	if c.skip(tag) {
+		return
+	}
 	rnd := env.Rand(r.Seed, "c28:"+tag)
 	nOwners, nKeys := 2+rnd.Intn(2), 1+rnd.Intn(3)
 	short := svc.shortTTL(p)
@@ -601,6 +653,9 @@ func (c *ctxRun) scripts(svc *service, workers int) {
 
 func (c *ctxRun) scriptOne(svc *service, idx int, sc script, ls []sop.L2Cache) {
 	r := c.r
+	if c.skip("script:" + svc.name + ":" + sc.name + ":" + sc.variant) {
+		return
+	}
 	if svc.srv == nil {
 		var closeFn func()
 		ls, closeFn = svc.open(3)
@@ -617,8 +672,17 @@ func (c *ctxRun) scriptOne(svc *service, idx int, sc script, ls []sop.L2Cache) {
 		d := map[string]any{"phase": "script", "service": svc.name, "script": sc.name, "variant": sc.variant, "seed": r.Seed,
 			"owners": "client 1 = A, 2 = B, 3 = C", "short_ttl": short.String(), "long_ttl": longTTL.String(),
 			"history": recs, "failed_step": step, "observed_vs_expected": why}
-		if svc.srv != nil {
-			d["stub_keys_now"] = svc.srv.Keys()
+		if svc.srv != nil { // ground truth: what the stub holds under this script's lock keys
+			now, mine := svc.srv.Keys(), map[string]any{}
+			for _, lk := range owners[0].keys {
+				if v, ok := now[lk.Key]; ok {
+					mine[lk.Key] = v
+				} else {
+					mine[lk.Key] = nil
+				}
+			}
+			d["lock_ids"] = map[string]any{"A": owners[0].keys[0].LockID.String(), "B": owners[1].keys[0].LockID.String(), "C": owners[2].keys[0].LockID.String()}
+			d["stub_keys_now"] = mine
 		}
 		return d
 	}
@@ -701,7 +765,6 @@ func sameShardNames(l sop.L2Cache, base string, n int, collide bool) []string {
 }
 
 func (c *ctxRun) capacity() {
-	r := c.r
 	saved := cache.DefaultInMemoryCacheShardCapacity
 	defer func() { cache.DefaultInMemoryCacheShardCapacity = saved }()
 	caseNo := 0
@@ -723,16 +786,18 @@ func (c *ctxRun) capacity() {
 			}
 		}
 	}
-	_ = r
 }
 
 func (c *ctxRun) capacityOne(caseNo, capy, fillers int, fillTTL string, acq opKind, collide, oneOwner bool) {
 	r := c.r
+	fpr := fmt.Sprintf("capacity:cap%d:fillers%d:ttl-%s:%s:collide=%v:one-filler-owner=%v", capy, fillers, fillTTL, acqName(acq), collide, oneOwner)
+	if c.skip(fpr) {
+		return
+	}
 	cache.DefaultInMemoryCacheShardCapacity = capy // read by NewL2InMemoryCache at construction
 	l := cache.NewL2InMemoryCache()
 	base := fmt.Sprintf("s%d-cap%d", r.Seed, caseNo)
 	names := append([]string{base}, sameShardNames(l, base, fillers, collide)...)
-	fpr := fmt.Sprintf("capacity:cap%d:fillers%d:ttl-%s:%s:collide=%v:one-filler-owner=%v", capy, fillers, fillTTL, acqName(acq), collide, oneOwner)
 	ttlOf := map[string]time.Duration{"same": longTTL, "longer": 2 * longTTL, "shorter": longTTL / 2}[fillTTL]
 
 	// every (owner, key) pair gets its own LockKey; holderOf[i] is the owner that was granted names[i]
@@ -831,6 +896,9 @@ func (c *ctxRun) capacityOne(caseNo, capy, fillers int, fillTTL string, acq opKi
 // in the Redis adapter a NON-owner's IsLockedTTL rewrites the holder's TTL (GETEX precedes the owner
 // comparison), so it can also shorten it.
 func (c *ctxRun) observeForeignTTL(svc *service) {
+	if c.only != "" {
+		return
+	}
 	ls, closeFn := svc.open(2)
 	defer closeFn()
 	owners := newOwners(ls, keyNames(fmt.Sprintf("s%d-observe-ttl", c.r.Seed), 1), true)
